@@ -242,6 +242,7 @@ pub fn type_json(t: Type) -> J {
 // ---------------------------------------------------------------------------------------------
 // panics and hangs in the code under test are data
 
+thread_local! { static IN_GUARD: std::cell::Cell<bool> = const { std::cell::Cell::new(false) }; }
 thread_local! { static LAST_PANIC: std::cell::RefCell<(String, String)> = const { std::cell::RefCell::new((String::new(), String::new())) }; }
 
 pub fn install_panic_hook() {
@@ -254,6 +255,9 @@ pub fn install_panic_hook() {
         } else {
             "?".to_string()
         };
+        if !IN_GUARD.with(|g| g.get()) {
+            eprintln!("harness panic at {loc}: {msg}");
+        }
         LAST_PANIC.with(|p| *p.borrow_mut() = (loc, msg));
     }));
 }
@@ -274,7 +278,10 @@ pub fn short_loc(loc: &str) -> String {
 
 /// Runs `f`, turning a panic into `Err((location, message))`.
 pub fn guarded<T>(f: impl FnOnce() -> T) -> Result<T, (String, String)> {
-    match std::panic::catch_unwind(std::panic::AssertUnwindSafe(f)) {
+    let prev = IN_GUARD.with(|g| g.replace(true));
+    let r = std::panic::catch_unwind(std::panic::AssertUnwindSafe(f));
+    IN_GUARD.with(|g| g.set(prev));
+    match r {
         Ok(v) => Ok(v),
         Err(_) => {
             let (loc, msg) = LAST_PANIC.with(|p| p.borrow().clone());
